@@ -2,7 +2,7 @@
    (store.py) for one collection.  Every operation is a total function
    coll -> coll * res value (new state, outcome).  Definitions only. *)
 From Coq Require Import ZArith List String Bool Ascii.
-From Verif Require Import Value PyEq BsonOrder Path Filter Update.
+From Verif Require Import Value PyEq BsonOrder Path Filter Update Project.
 Import ListNotations.
 Open Scope Z_scope.
 Open Scope string_scope.
@@ -546,11 +546,30 @@ Definition find_docs (c : coll) (f0 : value) (sort : list (string * Z))
   | _ => Err EType
   end.
 
-Definition find_op (c : coll) (f : value) (sort : list (string * Z)) (skip limit : Z)
-  : coll * res value :=
+Fixpoint project_all (proj : option value) (l : list value) : res (list value) :=
+  match l with
+  | [] => Ok []
+  | d :: l' => let! x := copy_only_fields d proj in let! r := project_all proj l' in Ok (x :: r)
+  end.
+
+Definition find_op (c : coll) (f : value) (proj : option value) (sort : list (string * Z))
+           (skip limit : Z) : coll * res value :=
   match find_docs c f sort with
   | Err e => (c, Err e)
-  | Ok (c', l) => (c', Ok (VArr (cursor_slice skip limit l)))
+  | Ok (c', l) =>
+      match project_all proj l with
+      | Err e => (c', Err e)
+      | Ok l' => (c', Ok (VArr (cursor_slice skip limit l')))
+      end
+  end.
+
+(* find_one(filter, projection, sort): first result or None *)
+Definition find_one (c : coll) (f : value) (proj : option value) (sort : list (string * Z))
+  : coll * res (option value) :=
+  match find_op c f proj sort 0 0 with
+  | (c', Ok (VArr (d :: _))) => (c', Ok (Some d))
+  | (c', Ok _) => (c', Ok None)
+  | (c', Err e) => (c', Err e)
   end.
 
 (* count_documents(filter, skip=, limit=) ; limit None = absent *)
@@ -756,6 +775,207 @@ Definition index_information (c : coll) : coll * res value :=
                   :: map (fun i => (iname i, index_doc i)) (idx c))))
   else (c, Ok (VDoc [])).
 
+(* ---------------------------------------------------------------- find_one_and_* *)
+Inductive fam_kind :=
+| FamDelete
+| FamUpdate (u : value) (upsert after : bool)
+| FamReplace (r : value) (upsert after : bool).
+
+Definition opt_to_value (o : option value) : value := match o with Some v => v | None => VNull end.
+
+(* Collection._find_and_modify *)
+Definition find_and_modify (pre5 : bool) (c : coll) (f : value) (proj : option value)
+           (sort : list (string * Z)) (k : fam_kind) : coll * res value :=
+  match f with
+  | VDoc _ =>
+      let valid := match k with
+                   | FamDelete => Ok tt
+                   | FamUpdate u _ _ => match u with
+                                        | VDoc _ => match first_key_dollar u with
+                                                    | Some true => Ok tt | _ => Err EValue end
+                                        | _ => Err EType end
+                   | FamReplace r _ _ => match r with
+                                         | VDoc _ => match first_key_dollar r with
+                                                     | Some true => Err EValue | _ => Ok tt end
+                                         | _ => Err EType end
+                   end in
+      match valid with
+      | Err e => (c, Err e)
+      | Ok _ =>
+      let upsert := match k with FamDelete => false | FamUpdate _ u _ | FamReplace _ u _ => u end in
+      let after := match k with FamDelete => false | FamUpdate _ _ a | FamReplace _ _ a => a end in
+      (* an empty update/replacement document is falsy: `if not (remove or update)` *)
+      let empty_arg := match k with
+                       | FamReplace (VDoc []) _ _ => true
+                       | _ => false end in
+      if empty_arg then (c, Err EValue) else
+      match find_one c f None sort with
+      | (c1, Err e) => (c1, Err e)
+      | (c1, Ok target) =>
+          match target, upsert with
+          | None, false => (c1, Ok VNull)
+          | _, _ =>
+              let query := match target with
+                           | Some (VDoc tfs) => match assoc "_id" tfs with
+                                                | Some i => Some (VDoc [("_id", i)])
+                                                | None => None end
+                           | _ => Some f
+                           end in
+              match query with
+              | None => (c1, Err EKey)
+              | Some query =>
+              let '(c2, old_r) := match target with
+                                  | Some _ => find_one c1 query proj []
+                                  | None => (c1, Ok None)
+                                  end in
+              match old_r with
+              | Err e => (c2, Err e)
+              | Ok old =>
+                  let '(c3, wr, query') :=
+                    match k with
+                    | FamDelete =>
+                        let '(c', r) := delete_op c2 query false in (c', r, query)
+                    | FamUpdate u _ _ | FamReplace u _ _ =>
+                        let '(c', r) := update pre5 c2 query u false upsert in
+                        (c', r,
+                         match r with
+                         | Ok (VDoc rfs) => match assoc "upserted_id" rfs with
+                                            | Some i => if truthy i then VDoc [("_id", i)] else query
+                                            | None => query end
+                         | _ => query
+                         end)
+                    end in
+                  match wr with
+                  | Err e => (c3, Err e)
+                  | Ok _ =>
+                      if after then
+                        match find_one c3 query' proj [] with
+                        | (c4, Ok r) => (c4, Ok (opt_to_value r))
+                        | (c4, Err e) => (c4, Err e)
+                        end
+                      else (c3, Ok (opt_to_value old))
+                  end
+              end
+              end
+          end
+      end
+      end
+  | _ => (c, Err EType)
+  end.
+
+(* ---------------------------------------------------------------- bulk_write *)
+Inductive bulk_req :=
+| BInsert (d : value)
+| BUpdate (f u : value) (multi upsert : bool)
+| BReplace (f r : value) (upsert : bool)
+| BDelete (f : value) (multi : bool).
+
+Record bulk_acc := mkAcc {
+  b_inserted : Z; b_matched : Z; b_modified : Z; b_upserted_n : Z; b_removed : Z;
+  b_upserted : list value; b_errors : list value
+}.
+
+Definition get_z (k : string) (v : value) : Z :=
+  match v with
+  | VDoc fs => match assoc k fs with Some (VInt z) => z | _ => 0 end
+  | _ => 0
+  end.
+
+(* one executor: returns the state, and either an accumulated result, a captured
+   WriteError, or a propagating exception *)
+Definition bulk_exec (pre5 : bool) (c : coll) (r : bulk_req) (a : bulk_acc)
+  : coll * res bulk_acc :=
+  match r with
+  | BInsert d =>
+      match d with
+      | VDoc _ =>
+          let '(c', o) := insert_doc c d in
+          (c', let! _ := o in Ok (mkAcc (b_inserted a + 1) (b_matched a) (b_modified a)
+                                       (b_upserted_n a) (b_removed a) (b_upserted a) (b_errors a)))
+      | _ => (c, Err EType)
+      end
+  | BUpdate _ _ _ _ | BReplace _ _ _ =>
+      let '(f, u, multi, upsert) := match r with
+                                    | BUpdate f u m up => (f, u, m, up)
+                                    | BReplace f u up => (f, u, false, up)
+                                    | _ => (VNull, VNull, false, false)
+                                    end in
+      let '(c', o) := update pre5 c f u multi upsert in
+      (c', let! rv := o in
+           let up := match rv with
+                     | VDoc fs => match assoc "upserted_id" fs with
+                                  | Some i => if is_null i then None else Some i
+                                  | None => None end
+                     | _ => None end in
+           match up with
+           | Some i =>
+               Ok (mkAcc (b_inserted a) (b_matched a) (b_modified a + get_z "modified" rv)
+                         (b_upserted_n a + 1) (b_removed a) (b_upserted a ++ [i]) (b_errors a))
+           | None =>
+               Ok (mkAcc (b_inserted a) (b_matched a + get_z "matched" rv)
+                         (b_modified a + get_z "modified" rv)
+                         (b_upserted_n a) (b_removed a) (b_upserted a) (b_errors a))
+           end)
+  | BDelete f multi =>
+      let '(c', o) := delete_op c f multi in
+      (c', let! rv := o in
+           Ok (mkAcc (b_inserted a) (b_matched a) (b_modified a) (b_upserted_n a)
+                     (b_removed a + get_z "deleted" rv) (b_upserted a) (b_errors a)))
+  end.
+
+Fixpoint bulk_go (pre5 : bool) (c : coll) (rs : list bulk_req) (ordered : bool) (index : Z)
+         (a : bulk_acc) : coll * res bulk_acc :=
+  match rs with
+  | [] => (c, Ok a)
+  | r :: rs' =>
+      let '(c', o) := bulk_exec pre5 c r a in
+      match o with
+      | Ok a' => bulk_go pre5 c' rs' ordered (index + 1) a'
+      | Err e =>
+          if is_write_error e then
+            let a' := mkAcc (b_inserted a) (b_matched a) (b_modified a) (b_upserted_n a)
+                            (b_removed a) (b_upserted a)
+                            (b_errors a ++ [VDoc [("index", VInt index); ("code", err_code e)]]) in
+            if ordered then (c', Ok a') else bulk_go pre5 c' rs' ordered (index + 1) a'
+          else (c', Err e)
+      end
+  end.
+
+Definition bulk_result (a : bulk_acc) : value :=
+  let body := [("nInserted", VInt (b_inserted a)); ("nMatched", VInt (b_matched a));
+               ("nModified", VInt (b_modified a)); ("nUpserted", VInt (b_upserted_n a));
+               ("nRemoved", VInt (b_removed a)); ("upserted", VArr (b_upserted a))] in
+  match b_errors a with
+  | [] => VDoc body
+  | errs => VDoc [("BulkWriteError", VDoc (body ++ [("writeErrors", VArr errs)]))]
+  end.
+
+(* registration-time validation of add_update (validate_ok_for_update); replacements are
+   not validated by the bulk builder *)
+Definition bulk_valid (r : bulk_req) : res unit :=
+  match r with
+  | BUpdate _ u _ _ =>
+      match u with
+      | VDoc _ => match first_key_dollar u with Some true => Ok tt | _ => Err EValue end
+      | _ => Err EType
+      end
+  | _ => Ok tt
+  end.
+
+Definition bulk_write (pre5 : bool) (c : coll) (rs : list bulk_req) (ordered : bool)
+  : coll * res value :=
+  match (fix chk (rs : list bulk_req) : res unit :=
+           match rs with [] => Ok tt | r :: rs' => let! _ := bulk_valid r in chk rs' end) rs with
+  | Err e => (c, Err e)
+  | Ok _ =>
+      match rs with
+      | [] => (c, Err EInvalidOp)
+      | _ =>
+          let '(c', o) := bulk_go pre5 c rs ordered 0 (mkAcc 0 0 0 0 0 [] []) in
+          (c', let! a := o in Ok (bulk_result a))
+      end
+  end.
+
 (* ---------------------------------------------------------------- operations *)
 Inductive op :=
 | OInsertOne (d : value)
@@ -763,9 +983,11 @@ Inductive op :=
 | OUpdate (f u : value) (multi upsert : bool)
 | OReplace (f r : value) (upsert : bool)
 | ODelete (f : value) (multi : bool)
-| OFind (f : value) (sort : list (string * Z)) (skip limit : Z)
+| OFind (f : value) (proj : option value) (sort : list (string * Z)) (skip limit : Z)
 | OCount (f : value) (skip : Z) (limit : option Z)
 | ODistinct (key : string) (f : value)
+| OFindAndModify (f : value) (proj : option value) (sort : list (string * Z)) (k : fam_kind)
+| OBulk (rs : list bulk_req) (ordered : bool)
 | OCreateIndex (key : list (string * value)) (unique sparse : bool) (ttl partial : option value)
                (name : option string)
 | ODropIndex (name : string)
@@ -781,9 +1003,11 @@ Definition step (pre5 : bool) (c : coll) (o : op) : coll * res value :=
   | OUpdate f u multi upsert => update_op pre5 c f u multi upsert
   | OReplace f r upsert => replace_op pre5 c f r upsert
   | ODelete f multi => delete_op c f multi
-  | OFind f sort skip limit => find_op c f sort skip limit
+  | OFind f proj sort skip limit => find_op c f proj sort skip limit
   | OCount f skip limit => count_op c f skip limit
   | ODistinct key f => distinct_op c key f
+  | OFindAndModify f proj sort k => find_and_modify pre5 c f proj sort k
+  | OBulk rs ordered => bulk_write pre5 c rs ordered
   | OCreateIndex key u s t p n => create_index c key u s t p n
   | ODropIndex n => drop_index c n
   | ODropIndexes => drop_indexes c
